@@ -3,27 +3,20 @@
 # specification, one recorded value in the middle of the trace is changed before validation
 # (VERIF_CORRUPT=<field>, see cmd/vcheck corruptTrace); the trace specification must then reject the
 # trace (exit 1, key <Cnn>:trace:<phase>).  Evidence and replays of these runs go to .work/alt-evidence/selftest.
-# usage: ./selftest.sh [Cnn ...]      exit 0: every corrupted trace was rejected
+# usage: ./selftest.sh [Cnn:field ...]      exit 0: every corrupted trace was rejected
 cd "$(dirname "$0")"
 fail=0
-field_of() {
-  case "$1" in
-    C02) echo accepted ;;
-    C12) echo after ;;
-    C17) echo r.session ;;
-    C19) echo r.status ;;
-    C20) echo v ;;
-  esac
-}
-for p in ${@:-C02 C12 C20 C17 C19}; do
-  f=$(field_of $p)
+# <check>:<field to change>; C20 validates two recorded traces (store operations: v, the repository suite's lock history: m)
+for pf in ${@:-C02:accepted C12:after C20:v C20:m C17:r.session C19:r.status}; do
+  p=${pf%%:*}
+  f=${pf#*:}
   out=$(VERIF_CORRUPT=$f ./vcheck.sh $p quick 2>&1)
   rc=$?
   echo "$out" | grep -E "^SELFTEST" | cut -c1-200
   if [ $rc -eq 1 ] && echo "$out" | grep -q "^VIOLATION property=$p .*key=$p:trace:"; then
-    echo "SELFTEST-OK $p: corrupted trace rejected"
+    echo "SELFTEST-OK $p ($f): corrupted trace rejected"
   else
-    echo "SELFTEST-FAIL $p: corrupted trace not rejected (exit $rc)"
+    echo "SELFTEST-FAIL $p ($f): corrupted trace not rejected (exit $rc)"
     fail=1
   fi
 done
